@@ -127,33 +127,38 @@ Fixpoint otimes (a b : tp) : result tp :=
   | (s, l) :: r => if dmem s a then ValueError else otimes (a ++ [(s, l)])%list r
   end.
 
-(* multiply(self, other, identity_dict, conversion_dict): returns the product and the updated
-   conversion dictionary *)
+(* multiply(self, other, identity_dict, conversion_dict): returns the product, the updated
+   conversion dictionary and the list of assignments made to it *)
 Fixpoint multiply_loop (self other : tp) (idd : dict bool) (conv : dict mexp)
-  : result (tp * dict mexp) :=
+  : result (tp * dict mexp * list (label * mexp)) :=
   match self with
-  | [] => Ok ([], conv)
+  | [] => Ok ([], conv, [])
   | (s, o) :: r =>
       match dget s other with
-      | None => do res <- multiply_loop r other idd conv ; Ok ((s, o) :: fst res, snd res)
+      | None => do res <- multiply_loop r other idd conv ;
+                Ok ((s, o) :: fst (fst res), snd (fst res), snd res)
       | Some o' =>
           do io <- lookup o idd ;
-          if (io : bool) then do res <- multiply_loop r other idd conv ; Ok ((s, o') :: fst res, snd res)
+          if (io : bool) then do res <- multiply_loop r other idd conv ;
+                              Ok ((s, o') :: fst (fst res), snd (fst res), snd res)
           else
             do io' <- lookup o' idd ;
-            if (io' : bool) then do res <- multiply_loop r other idd conv ; Ok ((s, o) :: fst res, snd res)
+            if (io' : bool) then do res <- multiply_loop r other idd conv ;
+                                 Ok ((s, o) :: fst (fst res), snd (fst res), snd res)
             else
               let lab := o ++ "_mult_" ++ o' in
               do v <- lookup o conv ;
               do v' <- lookup o' conv ;
               do res <- multiply_loop r other idd (dset lab (MMul v v') conv) ;
-              Ok ((s, lab) :: fst res, snd res)
+              Ok ((s, lab) :: fst (fst res), snd (fst res), (lab, MMul v v') :: snd res)
       end
   end.
 
-Definition multiply (self other : tp) (idd : dict bool) (conv : dict mexp) : result (tp * dict mexp) :=
+Definition multiply (self other : tp) (idd : dict bool) (conv : dict mexp)
+  : result (tp * dict mexp * list (label * mexp)) :=
   do res <- multiply_loop self other idd conv ;
-  Ok (fold_left (fun a kv => if dmem (fst kv) a then a else (a ++ [kv])%list) other (fst res), snd res).
+  Ok (fold_left (fun a kv => if dmem (fst kv) a then a else (a ++ [kv])%list) other (fst (fst res)),
+      snd (fst res), snd res).
 
 (* ---- inputs ------------------------------------------------------------------------------- *)
 Record jflags := { f_real : bool; f_herm : bool; f_id : bool }.
@@ -185,8 +190,13 @@ Record sterm := { st_frac : Q; st_coef : cname; st_ket : tp; st_bra : tp }.
 Record gen := {
   g_terms : list sterm;
   g_writes : list (label * mexp);                 (* every assignment to conversion_dictionary, in order *)
-  g_cwrites : list (cname * cexp)                 (* every assignment to coeffs_mapping, in order *)
+  g_cwrites : list (cname * cexp);                (* every assignment to coeffs_mapping, in order *)
+  g_jlog : list (label * mexp)                    (* every assignment to jop_conv_dict (the working copy of
+                                                     jump_operator_dict that is merged into conversion_dictionary) *)
 }.
+
+(* all assignments of a value to a label, in either dictionary *)
+Definition g_log (g : gen) : list (label * mexp) := (g_writes g ++ g_jlog g)%list.
 
 (* _add_hamiltonian_ket_terms *)
 Definition ham_ket_terms (i : input) : list sterm :=
@@ -235,15 +245,15 @@ Definition init_jop (jd : dict jflags) : dict mexp * dict bool :=
 
 (* _add_jump_operator_products: the loop over the jump operators; jop is jop_conv_dict *)
 Fixpoint product_terms (bug_sign : bool) (i : input) (idd hermd : dict bool) (jop : dict mexp) (js : list term)
-  : result (list sterm * list (label * mexp)) :=
+  : result (list sterm * list (label * mexp) * list (label * mexp)) :=
   match js with
-  | [] => Ok ([], [])
+  | [] => Ok ([], [], [])
   | (f, c, p) :: r =>
       let frac := (-1 * f / 2)%Q in
       do padj <- local_action (fun l => dget l hermd) "_H" p ;
       do res <- multiply padj p idd jop ;
-      let pm := fst res in
-      let jop' := snd res in
+      let pm := fst (fst res) in
+      let jop' := snd (fst res) in
       let sym := fun l => match dget l jop' with Some e => mget e (j_sym i) | None => None end in
       do pmt <- local_action sym "_T" pm ;
       let new_frac := if bug_sign then (-1 * frac)%Q else frac in
@@ -251,9 +261,14 @@ Fixpoint product_terms (bug_sign : bool) (i : input) (idd hermd : dict bool) (jo
       do rest <- product_terms bug_sign i idd hermd jop' r ;
       Ok ({| st_frac := frac; st_coef := c ++ "*j"; st_ket := pm; st_bra := [] |}
           :: {| st_frac := new_frac; st_coef := c ++ "*j"; st_ket := []; st_bra := pmt |}
-          :: fst rest,
-          (jop' ++ tw ++ snd rest)%list)
+          :: fst (fst rest),
+          (jop' ++ tw ++ snd (fst rest))%list,
+          (snd res ++ snd rest)%list)
   end.
+
+Definition adj_writes (jd : dict jflags) : list (label * mexp) :=
+  flat_map (fun kv => if negb (f_id (snd kv)) && negb (f_herm (snd kv))
+                      then [(fst kv ++ "_H", MH (MBase SJump (fst kv)))] else []) jd.
 
 Definition base_writes {V} (sr : src) (d : dict V) : list (label * mexp) :=
   map (fun kv => (fst kv, MBase sr (fst kv))) d.
@@ -279,12 +294,13 @@ Definition generate_struct (bug_sign : bool) (i : input) : result gen :=
   (* _add_jump_operator_products *)
   let st := init_jop (j_dict i) in
   do t4 <- product_terms bug_sign i (snd st) (map (fun kv => (fst kv, f_herm (snd kv))) (j_dict i)) (fst st) js ;
-  Ok {| g_terms := app (ham_ket_terms i) (app t2 (app t3 (fst t4)));
+  Ok {| g_terms := app (ham_ket_terms i) (app t2 (app t3 (fst (fst t4))));
         g_writes := app (base_writes SHam (h_conv i))
                    (app (ham_T_writes (h_conv i))
                    (app (conj_writes (j_dict i))
-                   (app (base_writes SJump (j_dict i)) (snd t4))));
-        g_cwrites := app (ham_cwrites (h_coeffs i)) (jump_cwrites (j_coeffs i)) |}.
+                   (app (base_writes SJump (j_dict i)) (snd (fst t4)))));
+        g_cwrites := app (ham_cwrites (h_coeffs i)) (jump_cwrites (j_coeffs i));
+        g_jlog := app (base_writes SJump (j_dict i)) (app (adj_writes (j_dict i)) (snd t4)) |}.
 
 (* ---- rendering: what the code returns ------------------------------------------------------ *)
 Definition render (kets bras : string) (t : sterm) : term :=
@@ -310,7 +326,7 @@ Record alg := {
   qC : Q -> aC;                                (* rational prefactors *)
   madd : aM -> aM -> aM; mmul : aM -> aM -> aM; m0 : aM; m1 : aM; mopp : aM -> aM;
   smul : aC -> aM -> aM;
-  mT : aM -> aM; mH : aM -> aM; tr : aM -> aC;
+  mT : aM -> aM; mconj : aM -> aM; mH : aM -> aM; tr : aM -> aC;
   lmul : aL -> aL -> aL; l1 : aL; lT : aL -> aL; lconj : aL -> aL; lH : aL -> aL;
   emb : site -> aL -> aM                       (* a acting on site s, identity on the other sites *)
 }.
@@ -346,7 +362,7 @@ Section Sem.
 
   (* a tensor product as an operator on the whole system *)
   Definition tpval (vl : label -> aL A) (t : tp) : aM A :=
-    fold_left (fun acc kv => mmul A acc (emb A (fst kv) (vl (snd kv)))) t (m1 A).
+    fold_right (fun kv acc => mmul A (emb A (fst kv) (vl (snd kv))) acc) (m1 A) t.
 
   Definition msum (l : list (aM A)) : aM A := fold_right (madd A) (m0 A) l.
   Definition msub (a b : aM A) : aM A := madd A a (mopp A b).
@@ -417,7 +433,7 @@ Definition Galg : alg :=
   {| aC := G; aM := G; aL := G;
      cadd := Gadd; cmul := Gmul; c0 := G0; c1 := G1; copp := Gopp; ci := Gi; qC := Gq;
      madd := Gadd; mmul := Gmul; m0 := G0; m1 := G1; mopp := Gopp; smul := Gmul;
-     mT := Gid; mH := Gconj; tr := Gid;
+     mT := Gid; mconj := Gconj; mH := Gconj; tr := Gid;
      lmul := Gmul; l1 := G1; lT := Gid; lconj := Gconj; lH := Gconj;
      emb := fun _ a => a |}.
 
